@@ -138,8 +138,14 @@ def run(ctx: Ctx) -> None:
         fams = [x for pos in G.LIMIT_POSITIONS for x in G.limit_family(pos, lim.max_line, lim.max_field, lim.max_headers)]
         fams += [(a, b[:4 * max(lim.max_line, lim.max_field)], c, d) for a, b, c, d in
                  G.unterminated_family(lim.max_line, lim.max_field, lim.max_headers)]
-        for j, (label, s, cutsets, mode) in enumerate(fams):
-            if ctx.quick and j % 2 == 1 and cn != "line<field" and cn != "line>field":
+        # one line between the two limits, in the first / second / third message of a read; header blocks with
+        # max_headers-1 / max_headers / max_headers+1 lines x every body kind (chunked with and without trailers)
+        must = list(G.between_limits_family(lim.max_line, lim.max_field))
+        if cn in ("small-equal", "tiny-buffer-small"):
+            must += G.header_count_family(lim.max_headers)
+        fams = [(a, b, c, d, True) for a, b, c, d in must] + [(a, b, c, d, False) for a, b, c, d in fams]
+        for j, (label, s, cutsets, mode, always) in enumerate(fams):
+            if not always and ctx.quick and j % 2 == 1 and cn != "line<field" and cn != "line>field":
                 continue
             g = H.Group(mode, s, lim, src="limit-family", label=f"{label} [{cn}]")
             g.parse([])
